@@ -121,7 +121,7 @@ func (m *Model) inferAccount(t *syntax.Transaction, b *syntax.Booking, other str
 func (m *Model) scoreCandidate(candidate string, tokens set.Set[token]) float64 {
 	count := float64(m.countByAccount[candidate])
 	score := math.Log(count / float64(m.count))
-	for token := range tokens {
+	for _, token := range tokens.Sorted(compare.Ordered[token]) {
 		if countForToken, ok := m.countByTokenAndAccount[token][candidate]; ok {
 			score += math.Log(float64(countForToken) / count)
 		} else {
